@@ -292,6 +292,7 @@ type hProj struct {
 	byKey    map[Key]string  // key -> canonical model tuple
 	byTuple  map[string]Key
 	keys     []Key // distinct keys in creation order
+	keyIdx   map[Key]int
 	tuples   map[Key]map[string]string // field name -> value (positions shift as .config grows)
 	rank     map[string]map[string]int // flat field name -> value -> first-observation rank
 	held     []hHeld                   // slices returned by ProjectValues that the caller kept
@@ -315,7 +316,7 @@ func (hp *hProj) checkHeld(c *hCheck) {
 }
 
 func newHProj(e hExpr) *hProj {
-	return &hProj{expr: e, cfgSeen: map[string]bool{}, byKey: map[Key]string{}, byTuple: map[string]Key{}, tuples: map[Key]map[string]string{}, rank: map[string]map[string]int{}}
+	return &hProj{expr: e, keyIdx: map[Key]int{}, cfgSeen: map[string]bool{}, byKey: map[Key]string{}, byTuple: map[string]Key{}, tuples: map[Key]map[string]string{}, rank: map[string]map[string]int{}}
 }
 
 type hInstance struct {
@@ -598,6 +599,7 @@ func (hp *hProj) observe(c *hCheck, w *hWorld, h *hResult, key Key, unit string)
 		}
 	} else {
 		hp.byKey[key] = t
+		hp.keyIdx[key] = len(hp.keys)
 		hp.keys = append(hp.keys, key)
 	}
 	if isNew {
@@ -1029,7 +1031,7 @@ func hRun(t *testing.T, r *sim.Run, prop string) {
 				} else {
 					k := hp.proj.Project(res)
 					hp.observe(c, w, h, k, "")
-					fmt.Fprintf(&joint, "%p|", hp.byTuple[hp.byKey[k]].k)
+					fmt.Fprintf(&joint, "#%d|", hp.keyIdx[hp.byTuple[hp.byKey[k]]])
 					if T.Intn(8, "projectvalues-without-unit") == 0 {
 						// without a .unit field every measurement projects to the result's key
 						ks := hp.proj.ProjectValues(res)
@@ -1261,7 +1263,7 @@ var hAssume = []string{
 
 var c08Engine = &sim.Engine{
 	Prop: "C08", Level: "exploration",
-	Rule: "one run = 2-5 projection expressions parsed on one ProjectionParser in every order (separate parser instance per order, <= 24 orders; 12 drawn orders beyond four expressions) and a seeded stream of 1-60 results over a growing universe of file keys and sub-name keys, projected through all projections and the residue; key identity, Key.Get, flattened fields, parse-order independence of the exclusions, losslessness and NonSingularFields are checked against a reference model after every operation; " +
+	Rule: "one run = 2-5 projection expressions parsed on one ProjectionParser in every order (separate parser instance per order, <= 24 orders; 12 drawn orders beyond four expressions) and a seeded stream of 1-60 results over a growing universe of file keys and sub-name keys, projected through all projections and the residue (results reused in place, results without measurements, rejected Parse calls in between, slices returned by ProjectValues held by the caller, NonSingularFields/Key.String calls between results, now and then without applying the filter that fixed value lists imply); key identity, Key.Get, flattened fields, parse-order independence of the exclusions, losslessness and NonSingularFields are checked against a reference model after every operation; " +
 		"non-trivial = at least two results projected and more keys than projections; distinct = distinct (expression count, results, keys, information classes)",
 	Assumptions: hAssume,
 	Real:        []string{"benchproc.ProjectionParser, Projection, Key, NonSingularFields", "benchproc.Filter (fixed value lists)", "benchfmt.Result/Name"},
